@@ -47,10 +47,10 @@ def plan(tier, seed):
 
 
 _RE = {
-    'study': re.compile(r'^owners/[^/]+/studies/[^/]+$'),
-    'trial': re.compile(r'^owners/[^/]+/studies/[^/]+/trials/\d+$'),
-    'name': re.compile(r'^owners/[^/]+/operations/suggestion/[^/]+/[^/]+/\d+$'),
-    'raw_parent': re.compile(r'^owners/[^/]+$'),
+    'study': re.compile(r'^owners/[^/]+/studies/[^/]+\Z'),
+    'trial': re.compile(r'^owners/[^/]+/studies/[^/]+/trials/(0|[1-9][0-9]*)\Z'),
+    'name': re.compile(r'^owners/[^/]+/operations/suggestion/[^/]+/[^/]+/(0|[1-9][0-9]*)\Z'),
+    'raw_parent': re.compile(r'^owners/[^/]+\Z'),
 }
 
 
